@@ -29,6 +29,18 @@ package priority
 //@ ghost var gPendP int
 //@ ghost var gOutClosed bool
 
+// C06: the two blocking waits for a release happen only when a release can come.
+//@ event recv dsc.feedback (p) in (*Discipline).getOneFeedback
+//@   requires [C06] never-waits-for-a-release-that-cannot-come: gInfl > 0
+//@   assume-env [*] release-only-for-delivered-items: gInflP[p] > 0
+//@   effect gInfl := gInfl - 1
+//@   effect gInflP := store(gInflP, p, gInflP[p] - 1)
+//@ event recv dsc.feedback (p) in (*Discipline).waitZeroActual
+//@   requires [C06] never-waits-for-a-release-that-cannot-come: gInfl > 0
+//@   assume-env [*] release-only-for-delivered-items: gInflP[p] > 0
+//@   effect gInfl := gInfl - 1
+//@   effect gInflP := store(gInflP, p, gInflP[p] - 1)
+
 // A release is sent once per delivered item and only for delivered items (DESIGN.md §6.5).
 //@ event recv dsc.feedback (p)
 //@   assume-env [*] release-only-for-delivered-items: gInflP[p] > 0
@@ -39,6 +51,7 @@ package priority
 //@ event send dsc.output (v)
 //@   requires [C01 C15] capacity-never-exceeded: gInfl < dsc.opts.HandlersQuantity
 //@   requires [C15] no-delivery-after-a-divider-fault: !gDivErr
+//@   requires [C05] never-more-than-its-share-under-saturation: gInflP[v.Priority] < dsc.strategic[v.Priority]
 //@   requires [C02 C07 C15] nothing-after-close: !gOutClosed
 //@   requires [C02] delivers-the-item-just-received-under-its-priority: gPendSet && v.Priority == gPendP && v.Item == gIn[gPendP][gInN[gPendP] - 1]
 //@   requires [C02] exactly-once-in-order: gOutNP[gPendP] < gInN[gPendP] && (gOutNP[gPendP] + 1 == gInN[gPendP])
@@ -48,6 +61,7 @@ package priority
 //@   effect gPendSet := false
 
 //@ event recv dsc.inputs[$p].Channel (item, opened)
+//@   assume-env [C05] saturated-every-input-has-data-waiting: opened
 //@   requires [C02 C17] reads-only-configured-inputs: in(gPset, p)
 //@   requires [C02] no-received-item-is-dropped: !gPendSet
 //@   effect gClosedIn := ite(opened, gClosedIn, store(gClosedIn, p, true))
@@ -57,6 +71,10 @@ package priority
 //@   effect gPendP := ite(opened, p, gPendP)
 
 //@ event recv dsc.interrupter.C ()
+
+// C05 is stated for saturated, buffered inputs: in io the default case (no data) cannot be taken.
+//@ event default select in (*Discipline).io
+//@   assume-env [C05] saturated-every-input-has-data-waiting: false
 
 //@ event send dsc.err (e)
 //@   requires [C02 C07 C15] reported-error-is-the-divider-fault: gDivErr ==> e == ErrDividerBad
@@ -82,6 +100,8 @@ package priority
 //@   requires [C15] dividend-at-most-handlers-quantity: dividend <= gH
 //@   requires [C15] distribution-not-nil: distribution != nil
 //@   modifies content(distribution), gDivErr
+//@   ensures [C05 C06] sum-rule-presupposed-by-the-property: msum(distribution) == old(msum(distribution)) + ite(len(priorities) > 0, dividend, 0)
+//@   ensures [C05 C06] frame-rule-presupposed-by-the-property: forall k :: !in(pset(priorities, len(priorities)), k) ==> (distribution[k] == old(distribution[k]) && (dom(distribution, k) <==> old(dom(distribution, k))))
 //@   ensures [C02 C07 C15] gDivErr <==> (old(gDivErr) || (msum(distribution) != old(msum(distribution)) && msum(distribution) - old(msum(distribution)) != dividend))
 
 // Well-formedness of the discipline state.
@@ -95,6 +115,18 @@ package priority
 //@   [*] allocated(dsc.priorities.arr) && allocated(dsc.actual) && allocated(dsc.tactic) && allocated(dsc.strategic)
 //@   [* C01] forall k :: dsc.actual[k] == gInflP[k]
 //@   [* C01] msum(dsc.actual) == gInfl && gInfl <= gH
+//@   [C05] saturation-is-stated-for-buffered-inputs: forall k :: dom(dsc.inputs, k) ==> (cap(dsc.inputs[k].Channel) != 0 && !dsc.inputs[k].Drained)
+//@   [C05 C06] len(dsc.priorities) > 0
+//@   [C05 C06] shares-sum-to-handlers-quantity: msum(dsc.strategic) == gH
+//@   [C05 C06] forall k :: dom(dsc.strategic, k) ==> in(pset(dsc.priorities, len(dsc.priorities)), k)
+//@   [C05 C06] forall k :: dom(dsc.actual, k) ==> in(pset(dsc.priorities, len(dsc.priorities)), k)
+
+// C05: no priority holds more than its share (SAT); during a round what is in flight plus what is planned stays within the share (ROUND).
+//@ pred SAT(dsc)
+//@   [C05] forall j :: 0 <= j && j < len(dsc.priorities) ==> dsc.actual[dsc.priorities[j]] <= dsc.strategic[dsc.priorities[j]]
+//@ pred ROUND(dsc)
+//@   [C05] forall j :: 0 <= j && j < len(dsc.priorities) ==> dsc.actual[dsc.priorities[j]] + dsc.tactic[dsc.priorities[j]] == dsc.strategic[dsc.priorities[j]]
+//@   [C05] forall k :: !in(pset(dsc.priorities, len(dsc.priorities)), k) ==> dsc.tactic[k] == 0
 
 // The round invariant: what is in flight plus what is planned never exceeds the capacity.
 //@ pred RINV(dsc)
@@ -125,6 +157,9 @@ package priority
 //@   ensures [C02 C07 C15] fault-is-reported: (gDivErr && !old(gDivErr)) ==> result == ErrDividerBad
 //@   ensures [C02 C07 C15] error-only-on-fault: result != nil ==> gDivErr
 //@   ensures [C02 C07 C15] old(gDivErr) ==> gDivErr
+//@   ensures [C05 C06] divider-frame-rule: forall k :: !in(pset(priorities, len(priorities)), k) ==> (distribution[k] == old(distribution[k]) && (dom(distribution, k) <==> old(dom(distribution, k))))
+//@   ensures [C05 C06] divider-sum-rule: msum(distribution) == old(msum(distribution)) + ite(len(priorities) > 0, dividend, 0)
+//@   ensures [C05 C06] good-divider-no-error: result == nil
 
 //@ func (*Discipline).calcVacants
 //@   requires [*] WF(dsc)
@@ -132,6 +167,7 @@ package priority
 
 //@ func (*Discipline).increaseActual
 //@   requires [*] dsc != nil && dsc.actual != nil
+//@   ensures [C05 C06] forall k :: dom(dsc.actual, k) <==> (old(dom(dsc.actual, k)) || k == priority)
 //@   requires [*] dsc.actual[priority] < two64 - 1
 //@   modifies content(dsc.actual)
 //@   ensures [* C01] dsc.actual[priority] == old(dsc.actual[priority]) + 1 && msum(dsc.actual) == old(msum(dsc.actual)) + 1
@@ -143,6 +179,7 @@ package priority
 //@   modifies content(dsc.actual)
 //@   ensures [* C01] dsc.actual[priority] == old(dsc.actual[priority]) - 1 && msum(dsc.actual) == old(msum(dsc.actual)) - 1
 //@   ensures [* C01] forall k :: k != priority ==> dsc.actual[k] == old(dsc.actual[k])
+//@   ensures [C05 C06] forall k :: dom(dsc.actual, k) <==> old(dom(dsc.actual, k))
 
 //@ func (*Discipline).decreaseTactic
 //@   requires [*] dsc != nil && dsc.tactic != nil
@@ -160,12 +197,19 @@ package priority
 
 //@ func (*Discipline).calcTacticByAddUpToStrategic
 //@   requires [*] WF(dsc)
+//@   ensures [C05] result ==> (forall k :: !in(pset(dsc.priorities, len(dsc.priorities)), k) ==> dsc.tactic[k] == 0)
+//@   ensures [*] WF(dsc)
 //@   modifies content(dsc.tactic)
 //@   ensures [* C01] result ==> msum(dsc.tactic) == vacants
+//@   ensures [C05 C06] within-shares-means-proceed: ((forall j :: 0 <= j && j < len(dsc.priorities) ==> dsc.actual[dsc.priorities[j]] <= dsc.strategic[dsc.priorities[j]]) && vacants == gH - msum(dsc.actual)) ==> result
+//@   ensures [C05] result ==> (forall j :: 0 <= j && j < len(dsc.priorities) ==> dsc.tactic[dsc.priorities[j]] == dsc.strategic[dsc.priorities[j]] - dsc.actual[dsc.priorities[j]])
 //@   assume-arith add-overflow[2]
 //@   loop 0
 //@     invariant [*] picked == msum(dsc.tactic)
 //@     invariant [*] forall j :: $i <= j && j < len(dsc.priorities) ==> dsc.tactic[dsc.priorities[j]] == 0
+//@     invariant [C05 C06] picked == msumR(dsc.strategic, pset(dsc.priorities, $i)) - msumR(dsc.actual, pset(dsc.priorities, $i))
+//@     invariant [C05] forall k :: !in(pset(dsc.priorities, len(dsc.priorities)), k) ==> dsc.tactic[k] == 0
+//@     invariant [C05 C06] forall j :: 0 <= j && j < $i ==> (dsc.actual[dsc.priorities[j]] <= dsc.strategic[dsc.priorities[j]] && dsc.tactic[dsc.priorities[j]] == dsc.strategic[dsc.priorities[j]] - dsc.actual[dsc.priorities[j]])
 
 //@ func (*Discipline).updateUncrowded
 //@   requires [*] WF(dsc)
@@ -217,6 +261,8 @@ package priority
 
 //@ func (*Discipline).calcTactic
 //@   requires [*] WF(dsc)
+//@   requires [C05] SAT(dsc)
+//@   ensures [C05] result1 == nil && (result0 ==> ROUND(dsc)) && SAT(dsc)
 //@   ensures [*] WF(dsc)
 //@   modifies content(dsc.tactic), dsc.uncrowded, anyelems(dsc.uncrowded), gDivErr
 //@   ensures [* C01] (result1 == nil && result0) ==> RINV(dsc)
@@ -224,20 +270,27 @@ package priority
 //@   ensures [C02 C07 C15] old(gDivErr) ==> gDivErr
 //@   ensures [*] dsc.uncrowded.arr == 0 || dsc.uncrowded.arr != dsc.priorities.arr
 //@   ensures [C02 C07 C15] result1 != nil ==> gDivErr
+//@   ensures [C06] nothing-in-flight-means-proceed: old(gInfl) == 0 ==> (result1 != nil || result0)
 
 //@ func (*Discipline).getOneFeedback
 //@   requires [*] WF(dsc)
+//@   requires [C05] SAT(dsc)
+//@   ensures [C05] SAT(dsc)
+//@   requires [C06] gInfl > 0
 //@   modifies content(dsc.actual), gInfl, gInflP, gClock
 //@   ensures [*] WF(dsc)
 
 //@ func (*Discipline).waitCalcTactic
 //@   requires [*] WF(dsc)
+//@   requires [C05] SAT(dsc)
+//@   ensures [C05] result == nil && ROUND(dsc)
 //@   modifies content(dsc.tactic), content(dsc.actual), dsc.uncrowded, anyelems(dsc.uncrowded), gDivErr, gInfl, gInflP, gClock
 //@   ensures [*] WF(dsc)
 //@   ensures [* C01] result == nil ==> RINV(dsc)
 //@   ensures [C02 C07 C15] (gDivErr && !old(gDivErr)) ==> result == ErrDividerBad
 //@   ensures [C02 C07 C15] old(gDivErr) ==> gDivErr
 //@   loop 0
+//@     invariant [C05] SAT(dsc)
 //@     invariant [*] WF(dsc)
 //@     invariant [C02 C07 C15] gDivErr == old(gDivErr)
 //@   ensures [C02 C07 C15] result != nil ==> gDivErr
@@ -264,6 +317,9 @@ package priority
 //@   requires [C02] forall k :: gOutNP[k] <= gInN[k]
 //@   ensures [C02] SEQ2(dsc)
 //@   requires [*] WF(dsc)
+//@   requires [C05] ROUND(dsc)
+//@   ensures [C05] ROUND(dsc)
+//@   requires [C05 C06] in(pset(dsc.priorities, len(dsc.priorities)), priority)
 //@   requires [* C01] RINV(dsc)
 //@   requires [* C01] dsc.tactic[priority] >= 1
 //@   requires [C02 C07 C15] !gDivErr
@@ -278,6 +334,10 @@ package priority
 //@   requires [C02] SEQ2(dsc)
 //@   ensures [C02] SEQ2(dsc)
 //@   requires [*] WF(dsc)
+//@   ensures [C05] forall k :: k != priority ==> dsc.tactic[k] == old(dsc.tactic[k])
+//@   requires [C05] ROUND(dsc)
+//@   ensures [C05] ROUND(dsc) && dsc.tactic[priority] == 0
+//@   requires [C05 C06] in(pset(dsc.priorities, len(dsc.priorities)), priority)
 //@   requires [*] in(gPset, priority)
 //@   requires [* C01] RINV(dsc)
 //@   requires [C02 C07 C15] !gDivErr
@@ -289,6 +349,8 @@ package priority
 //@   ensures [* C01] result == msum(dsc.actual) - old(msum(dsc.actual))
 //@   ensures [C02 C07] DRAINED(dsc)
 //@   loop 0
+//@     invariant [C05] forall k :: k != priority ==> dsc.tactic[k] == old(dsc.tactic[k])
+//@     invariant [C05] ROUND(dsc)
 //@     invariant [C02] SEQ2(dsc)
 //@     invariant [*] WF(dsc)
 //@     invariant [* C01] RINV(dsc)
@@ -299,6 +361,10 @@ package priority
 //@   requires [C02] SEQ2(dsc)
 //@   ensures [C02] SEQ2(dsc)
 //@   requires [*] WF(dsc)
+//@   ensures [C05] forall k :: k != priority ==> dsc.tactic[k] == old(dsc.tactic[k])
+//@   requires [C05] ROUND(dsc)
+//@   ensures [C05] ROUND(dsc)
+//@   requires [C05 C06] in(pset(dsc.priorities, len(dsc.priorities)), priority)
 //@   requires [*] in(gPset, priority)
 //@   requires [* C01] RINV(dsc)
 //@   requires [C02 C07 C15] !gDivErr
@@ -310,6 +376,8 @@ package priority
 //@   ensures [* C01] result == msum(dsc.actual) - old(msum(dsc.actual))
 //@   ensures [C02 C07] DRAINED(dsc)
 //@   loop 0
+//@     invariant [C05] forall k :: k != priority ==> dsc.tactic[k] == old(dsc.tactic[k])
+//@     invariant [C05] ROUND(dsc)
 //@     invariant [C02] SEQ2(dsc)
 //@     invariant [*] WF(dsc)
 //@     invariant [* C01] RINV(dsc)
@@ -320,6 +388,8 @@ package priority
 //@   requires [C02] SEQ2(dsc)
 //@   ensures [C02] SEQ2(dsc)
 //@   requires [*] WF(dsc)
+//@   requires [C05] ROUND(dsc)
+//@   ensures [C05] ROUND(dsc) && (forall k :: dsc.tactic[k] == 0)
 //@   requires [* C01] RINV(dsc)
 //@   requires [C02 C07 C15] !gDivErr
 //@   requires [C02 C07 C15] !gOutClosed
@@ -330,6 +400,7 @@ package priority
 //@   ensures [* C01] result == msum(dsc.actual) - old(msum(dsc.actual))
 //@   ensures [C02 C07] DRAINED(dsc)
 //@   loop 0
+//@     invariant [C05] ROUND(dsc) && (forall j :: 0 <= j && j < $i ==> dsc.tactic[dsc.priorities[j]] == 0)
 //@     invariant [C02] SEQ2(dsc)
 //@     invariant [*] WF(dsc)
 //@     invariant [* C01] RINV(dsc)
@@ -338,6 +409,10 @@ package priority
 
 //@ func (*Discipline).recalcTactic
 //@   requires [*] WF(dsc)
+//@   requires [C05] ROUND(dsc) && (forall k :: dsc.tactic[k] == 0)
+//@   ensures [C05] no-error: result1 == nil
+//@   ensures [C05] nothing-left: forall k :: dsc.tactic[k] == 0
+//@   ensures [C05] ROUND(dsc)
 //@   requires [* C01] RINV(dsc)
 //@   modifies content(dsc.tactic), dsc.useful, anyelems(dsc.useful), gDivErr
 //@   ensures [*] WF(dsc)
@@ -349,9 +424,12 @@ package priority
 
 //@ func (*Discipline).getLimitedFeedback
 //@   requires [*] WF(dsc)
+//@   requires [C05] SAT(dsc)
+//@   ensures [C05] SAT(dsc)
 //@   modifies content(dsc.actual), gInfl, gInflP, gClock
 //@   ensures [*] WF(dsc)
 //@   loop 0
+//@     invariant [C05] SAT(dsc)
 //@     invariant [*] WF(dsc)
 
 //@ func (*Discipline).isZeroActual
@@ -368,16 +446,22 @@ package priority
 
 //@ func (*Discipline).waitZeroActual
 //@   requires [*] WF(dsc)
+//@   requires [C05] SAT(dsc)
+//@   ensures [C05] SAT(dsc)
 //@   modifies content(dsc.actual), gInfl, gInflP, gClock
 //@   ensures [*] WF(dsc)
 //@   ensures [* C07 C15] gInfl == 0
 //@   loop 0
+//@     invariant [C05] SAT(dsc)
 //@     invariant [*] WF(dsc)
 
 //@ func (*Discipline).base
 //@   requires [C02] SEQ2(dsc)
 //@   ensures [C02] SEQ2(dsc)
 //@   requires [*] WF(dsc)
+//@   requires [C05] SAT(dsc)
+//@   ensures [C05] exactly-its-share-after-a-round: result1 == nil && (forall j :: 0 <= j && j < len(dsc.priorities) ==> dsc.actual[dsc.priorities[j]] == dsc.strategic[dsc.priorities[j]])
+//@   ensures [C05] SAT(dsc)
 //@   requires [C02 C07 C15] !gDivErr
 //@   requires [C02 C07 C15] !gOutClosed
 //@   requires [C02 C07] DRAINED(dsc)
@@ -389,9 +473,11 @@ package priority
 //@   ensures [C02 C07 C15] result1 != nil ==> gDivErr
 
 //@ func (*Discipline).loop
+//@   may-diverge
 //@   requires [C02] SEQ2(dsc)
 //@   ensures [C02] SEQ2(dsc)
 //@   requires [*] WF(dsc)
+//@   requires [C05] SAT(dsc)
 //@   requires [C02 C07 C15] !gDivErr
 //@   requires [C02 C07 C15] !gOutClosed
 //@   requires [C02 C07] DRAINED(dsc)
@@ -403,14 +489,17 @@ package priority
 //@   ensures [C02 C07 C15] result == nil ==> !gDivErr
 //@   ensures [C02 C07 C15] result != nil ==> gDivErr
 //@   loop 0
+//@     invariant [C05] SAT(dsc)
 //@     invariant [C02] SEQ2(dsc)
 //@     invariant [*] WF(dsc)
 //@     invariant [C02 C07 C15] !gDivErr
 //@     invariant [C02 C07] DRAINED(dsc)
 
 //@ func (*Discipline).main
+//@   may-diverge
 //@   requires [C02] SEQ2(dsc)
 //@   requires [*] WF(dsc)
+//@   requires [C05] SAT(dsc)
 //@   requires [C02 C07 C15] !gDivErr
 //@   requires [C02 C07 C15] !gOutClosed
 //@   requires [C02 C07] DRAINED(dsc)
@@ -422,7 +511,11 @@ package priority
 // prepare builds the tables of the discipline; a divider fault at creation is reported and
 // configurations in which some configured priority gets no handler are rejected (C15).
 //@ func prepare
+//@   requires [C05] forall k :: dom(opts.Inputs, k) ==> cap(opts.Inputs[k]) != 0
+//@   ensures [C05] result3 == nil ==> (forall k :: dom(result0, k) ==> cap(result0[k].Channel) != 0)
+//@   ensures [C05 C06] result3 == nil ==> len(result1) > 0
 //@   requires [*] opts.Divider != nil && opts.HandlersQuantity >= 1
+//@   requires [C05 C06] len(opts.Inputs) != 0
 //@   requires [*] gPset == domset(opts.Inputs) && gH == opts.HandlersQuantity && !gDivErr
 //@   modifies gDivErr, gPerm, gInv
 //@   ensures [*] result3 == nil ==> (result0 != nil && result2 != nil && result0 != result2 && fresh(result0) && fresh(result2) && result1.arr != 0 && fresh(result1.arr))
@@ -430,6 +523,8 @@ package priority
 //@   ensures [*] result3 == nil ==> (forall k :: in(gPset, k) ==> dom(result0, k))
 //@   ensures [* C02 C07] result3 == nil ==> (forall k :: dom(result0, k) ==> !result0[k].Drained)
 //@   ensures [C15] creation-fault-is-reported: gDivErr ==> result3 == ErrDividerBad
+//@   ensures [C05 C06] shares-sum: result3 == nil ==> msum(result2) == gH
+//@   ensures [C05 C06] shares-keys: result3 == nil ==> (forall k :: dom(result2, k) ==> in(pset(result1, len(result1)), k))
 //@   ensures [C15] every-configured-priority-has-a-share: result3 == nil ==> (forall a :: 0 <= a && a < len(result1) ==> result2[result1[a]] >= 1)
 //@   ensures [C02 C07 C15] result3 == nil ==> !gDivErr
 //@   assume-arith append-len[3]
@@ -439,11 +534,14 @@ package priority
 //@     invariant [*] forall a :: 0 <= a && a < len(priorities) ==> (in($visited, priorities[a]) && in(gPset, priorities[a]))
 //@     invariant [*] forall a, b :: 0 <= a && a < b && b < len(priorities) ==> priorities[a] != priorities[b]
 //@     invariant [* C02 C07] forall k :: dom(inputs, k) ==> !inputs[k].Drained
+//@     invariant [C05] forall k :: dom(inputs, k) ==> cap(inputs[k].Channel) != 0
 //@     invariant [*] msum(strategic) == 0
+//@     invariant [C05 C06] (forall k :: !dom(strategic, k)) && (len(priorities) > 0 || (forall k :: !in($visited, k)))
 
 // The ghost state of a discipline that does not exist yet is empty; gPset / gH name the
 // configuration. The feedback/output capacities are sizes the runtime can allocate.
 //@ func New
+//@   requires [C05] saturation-is-stated-for-buffered-inputs: forall k :: dom(opts.Inputs, k) ==> cap(opts.Inputs[k]) != 0
 //@   requires [*] ghost-initial-state: !gPendSet && (forall k :: gInN[k] == 0 && gOutNP[k] == 0) && gInfl == 0 && (forall k :: gInflP[k] == 0) && !gDivErr && !gOutClosed && (forall k :: !in(gClosedIn, k)) && gPset == domset(opts.Inputs) && gH == opts.HandlersQuantity
 //@   modifies gDivErr, gPerm, gInv
 //@   ensures [*] result1 == nil ==> result0 != nil
